@@ -108,6 +108,17 @@ def cont_check(dimkind, case, rec):
     with scratch():
         fn = "cont." + case["fmt"]
         cont.as_meshio(combined=False).write(fn)
+        # single cell blocks selected by their index (the first one, index 0, included)
+        npts_file = sum(m.npoints for m in meshes)
+        for i_, m1 in enumerate(meshes):
+            ci = fem.mesh.read(fn, dim=dim, cellblock=i_)
+            ok = rec.require("cellblock=i:one-mesh", len(ci.meshes) == 1, {"cellblock": i_, "meshes": len(ci.meshes)})
+            if ok:
+                mi = ci.meshes[0]
+                rec.require("cellblock=i:cell-type-and-cells", mi.cell_type == m1.cell_type and np.asarray(mi.cells).shape == np.asarray(m1.cells).shape, {"cellblock": i_})
+                rec.require("cellblock=i:points-of-the-file", len(np.asarray(ci.points)) == npts_file, {"cellblock": i_, "points": len(np.asarray(ci.points)), "file": npts_file})
+                if np.asarray(mi.cells).shape == np.asarray(m1.cells).shape and np.asarray(mi.cells).max() < len(np.asarray(ci.points)):
+                    rec.close("cellblock=i:cell-corner-positions", float(np.abs(np.asarray(ci.points)[np.asarray(mi.cells)] - np.asarray(m1.points)[np.asarray(m1.cells)]).max()), 1e-15)
         c2 = fem.mesh.read(fn, dim=dim, merge=True, decimals=case["decimals"])
         rec.require("block-count", len(c2.meshes) == len(meshes), [len(c2.meshes), len(meshes)])
         P = np.asarray(c2.points)
